@@ -101,11 +101,11 @@ def peer_read(peer, k, timeout=5.0):
     return out
 
 
-def drive_sync(script, timeout_s=0.05):
+def drive_sync(script, timeout_s=0.05, strport=False):
     from adb_shell.transport.tcp_transport import TcpTransport
     from adb_shell.exceptions import TcpTimeoutException
     L = Listener()
-    t = TcpTransport('127.0.0.1', L.port)
+    t = TcpTransport('127.0.0.1', str(L.port) if strport else L.port)      # (the port as text: the socket layer accepts a service string)
     tr = []
     written = 0
     delivered = 0
@@ -117,7 +117,7 @@ def drive_sync(script, timeout_s=0.05):
             try:
                 if op == 'connect':
                     L.drop_peer()
-                    t.connect(timeout_s)
+                    t.connect(a['tmo'] if 'tmo' in a else timeout_s)
                     L.accept()
                     written = delivered = 0
                     epoch += 1
@@ -138,6 +138,35 @@ def drive_sync(script, timeout_s=0.05):
                     k = t.bulk_write(data, None if a.get('tmo') == 'none' else timeout_s)
                     got = peer_read(L.peer, k if isinstance(k, int) and 0 < k <= len(data) else 0)
                     tr.append(dict(op='hw', n=len(data), k=k if isinstance(k, int) else -1, prefixOk=(got == data[:len(got)] and len(got) == k)))
+                elif op == 'hwblocked':
+                    # the send buffer is full AND unread inbound bytes are pending; the peer starts draining after 0.2 s: a write with a
+                    # timeout of 3 s waits for room and goes through
+                    import threading
+                    pend = bytes(byte_name(written + i + 1, epoch) for i in range(a['m']))
+                    L.peer.sendall(pend)
+                    tr.append(dict(op='pw', m=a['m']))
+                    written += a['m']
+                    select.select([t._connection], [], [], 1.0)
+                    sent = bytearray()
+                    for _ in range(4000):
+                        chunk = bytes((len(sent) + i) % 251 for i in range(65536))
+                        try:
+                            k = t.bulk_write(chunk, 0.05)
+                        except TcpTimeoutException:
+                            break
+                        sent += chunk[:k]
+                    got_ = []
+                    th = threading.Timer(0.2, lambda: got_.append(peer_read(L.peer, len(sent), timeout=10.0)))
+                    th.start()
+                    try:
+                        k = t.bulk_write(b'Z' * 1000, 3.0)
+                    except Exception as x:  # noqa
+                        th.join()
+                        tr.append(dict(op='error', clause='WriteWaitsForRoom', what='bulk_write(1000 bytes, 3.0) raised %r although the peer made room after 0.2 s (inbound bytes were pending)' % (x,)))
+                        break
+                    th.join()
+                    tail = peer_read(L.peer, k if isinstance(k, int) and 0 < k <= 1000 else 0)
+                    tr.append(dict(op='hw', n=len(sent) + 1000, k=len(sent) + (k if isinstance(k, int) else -1), prefixOk=bool(got_ and got_[0] == bytes(sent) and tail == b'Z' * len(tail) and len(tail) == k)))
                 elif op == 'rst':
                     # the peer aborts the connection (RST: a rebooting device); whatever the reads that follow return or raise is not judged
                     import struct
@@ -206,13 +235,13 @@ def drive_sync(script, timeout_s=0.05):
     return tr
 
 
-def drive_async(script, timeout_s=0.05):
+def drive_async(script, timeout_s=0.05, strport=False):
     from adb_shell.transport.tcp_transport_async import TcpTransportAsync
     from adb_shell.exceptions import TcpTimeoutException
 
     async def go():
         L = Listener()
-        t = TcpTransportAsync('127.0.0.1', L.port)
+        t = TcpTransportAsync('127.0.0.1', str(L.port) if strport else L.port)
         tr = []
         written = delivered = 0
         oob_sent = False
@@ -223,7 +252,7 @@ def drive_async(script, timeout_s=0.05):
                 try:
                     if op == 'connect':
                         L.drop_peer()
-                        await t.connect(timeout_s)
+                        await t.connect(a['tmo'] if 'tmo' in a else timeout_s)
                         L.accept()
                         written = delivered = 0
                         epoch += 1
@@ -245,6 +274,8 @@ def drive_async(script, timeout_s=0.05):
                         k = await t.bulk_write(data, None if a.get('tmo') == 'none' else max(timeout_s, 5.0))
                         got = await rd
                         tr.append(dict(op='hw', n=len(data), k=k if isinstance(k, int) else -1, prefixOk=(got == data[:len(got)] and len(got) == k)))
+                    elif op == 'hwblocked':
+                        pass                                 # (asyncio buffers writes itself: the situation is one of the blocking-socket transport)
                     elif op == 'rst':
                         import struct
                         L.peer.setsockopt(socket.SOL_SOCKET, socket.SO_LINGER, struct.pack('ii', 1, 0))
@@ -416,6 +447,19 @@ def body(ctx, prefix='C18'):
               dict(op='dread', m=2, n=2, delay=0.7, tmo=3.0, wallstep=3600), dict(op='dread', m=2, n=2, delay=0.3, tmo=3.0, wallstep=-3600), dict(op='close')]
         traces.append(drv(sc))
         meta.append(dict(kind='peer reset, then reconnect; reads without a timeout', mode=mode, script=sc))
+    # connected without a timeout, closed, connected with one, then a read without a timeout that must wait; the port given as text with
+    # timeouts on the way; a write that finds the send buffer full while inbound bytes are pending
+    for mode, drv in (('sync', drive_sync), ('async', drive_async)):
+        sc = [dict(op='connect', tmo=None), dict(op='pw', m=2), dict(op='read', n=2), dict(op='close'), dict(op='connect', tmo=0.5), dict(op='dread', m=3, n=3, delay=0.25),
+              dict(op='close'), dict(op='connect', tmo=None), dict(op='dread', m=2, n=2, delay=0.1, tmo=2.0), dict(op='read', n=1), dict(op='close')]
+        traces.append(drv(sc))
+        meta.append(dict(kind='connect timeouts None / a number in turn, reads without a timeout', mode=mode, script=sc))
+        sc = [dict(op='connect'), dict(op='read', n=4), dict(op='pw', m=3), dict(op='read', n=3), dict(op='read', n=1, poll=True), dict(op='hw', n=24, tmo='t'), dict(op='close'), dict(op='connect'), dict(op='read', n=1)]
+        traces.append(drv(sc, strport=True))
+        meta.append(dict(kind='the port given as text', mode=mode, script=sc))
+    sc = [dict(op='connect', tmo=1.0), dict(op='hwblocked', m=100), dict(op='read', n=100), dict(op='pw', m=5), dict(op='read', n=5), dict(op='close')]
+    traces.append(drive_sync(sc))
+    meta.append(dict(kind='send buffer full while inbound bytes are pending', mode='sync', script=sc))
     # what the peer had sent and the host had not consumed when it closed must not turn up on the next connection
     for mode, drv in (('sync', drive_sync), ('async', drive_async)):
         for (sent, taken) in ((3, 1), (30, 24), (5000, 24), (2, 2)):
